@@ -6,7 +6,7 @@ HERE = os.path.dirname(os.path.dirname(os.path.abspath(__file__)))
 BASE = os.environ.get("BNW", "/tmp/bnw")
 sel = sys.argv[sys.argv.index("-k") + 1] if "-k" in sys.argv else None
 n = bad = 0
-for pid in sorted(os.listdir(os.path.join(HERE, "benign"))):
+for pid in sorted(d for d in os.listdir(os.path.join(HERE, "benign")) if os.path.isdir(os.path.join(HERE, "benign", d))):
     for k in sorted(os.listdir(os.path.join(HERE, "benign", pid))):
         name = "%s_%s" % (pid, k)
         patch = os.path.join(HERE, "benign", pid, k, "patch.diff")
